@@ -132,7 +132,7 @@ class TorchDistributedCommunicator:
         """
         self._bucket_cap_mb = bucket_cap_mb
         self._allreduce_buckets: defaultdict[
-            frozenset[int],
+            dist.ProcessGroup | None,
             AllreduceTensorBucket | None,
         ] = defaultdict(lambda: None)
 
@@ -153,7 +153,7 @@ class TorchDistributedCommunicator:
         Returns:
             Current AllreduceTensorBucket if one has been created else None.
         """
-        return self._allreduce_buckets[self.group_ranks(group)]
+        return self._allreduce_buckets[group]
 
     def _new_allreduce_bucket(
         self,
@@ -180,7 +180,7 @@ class TorchDistributedCommunicator:
                 'communicated.',
             )
         bucket = AllreduceTensorBucket(group)
-        self._allreduce_buckets[self.group_ranks(group)] = bucket
+        self._allreduce_buckets[group] = bucket
         return bucket
 
     def allreduce(
